@@ -44,6 +44,9 @@ type propCfg struct {
 func d(s string) time.Duration { x, _ := time.ParseDuration(s); return x }
 
 var props = map[string]propCfg{
+	"C04": {Level: "exploration",
+		Quick: tierCfg{Checks: 250, Shards: 8, Timeout: d("15m"), ShrinkTime: d("45s")},
+		Thor:  tierCfg{Checks: 2500, Shards: 12, Timeout: d("90m"), ShrinkTime: d("180s")}},
 	"C14": {Level: "translation_validation",
 		Quick: tierCfg{Checks: 3, Shards: 4, Timeout: d("15m"), ShrinkTime: d("45s")},
 		Thor:  tierCfg{Checks: 12, Shards: 12, Timeout: d("60m"), ShrinkTime: d("180s")}},
